@@ -69,6 +69,34 @@ func TestGovcReplay(t *testing.T) {
 			}
 		}
 	}
+	// an existing, longer destination must not keep a stale tail; an empty source gives an empty destination
+	for _, srcLen := range []int{0, 3, 5000} {
+		dir := t.TempDir()
+		src, dest := filepath.Join(dir, "s"), filepath.Join(dir, "d")
+		want := bytes.Repeat([]byte("x"), srcLen)
+		os.WriteFile(src, want, 0644)
+		os.WriteFile(dest, bytes.Repeat([]byte("old-"), 4000), 0644)
+		if _, err := CopyFile(src, dest); err == nil {
+			if got, _ := os.ReadFile(dest); !bytes.Equal(got, want) {
+				report("CopyFile of a %d-byte source over a 16000-byte destination returned nil and left %d bytes in the destination", srcLen, len(got))
+			}
+		}
+	}
+	// a MoveFile that fails (rename and copy both impossible) must leave the source in place
+	for name, mkDest := range map[string]func(dir string) string{
+		"missing parent":    func(dir string) string { return filepath.Join(dir, "no", "such", "d") },
+		"parent is a file":  func(dir string) string { os.WriteFile(filepath.Join(dir, "f"), nil, 0644); return filepath.Join(dir, "f", "d") },
+		"dest is directory": func(dir string) string { os.Mkdir(filepath.Join(dir, "dd"), 0755); os.WriteFile(filepath.Join(dir, "dd", "x"), nil, 0644); return filepath.Join(dir, "dd") },
+	} {
+		dir := t.TempDir()
+		src := filepath.Join(dir, "s")
+		os.WriteFile(src, content, 0644)
+		if err := MoveFile(src, mkDest(dir)); err != nil {
+			if got, rerr := os.ReadFile(src); rerr != nil || !bytes.Equal(got, content) {
+				report("MoveFile failed (%s: %v) but the source is gone or changed (read err %v, %d bytes)", name, err, rerr, len(got))
+			}
+		}
+	}
 	if found > 0 {
 		t.Fatalf("%d violations of C18 on the real code", found)
 	}
